@@ -240,6 +240,10 @@ def first_order(chk, rng):
                 g5 = np.asarray(pp.CenterOn(mean=imean)(traces))
                 if g5.dtype.kind != 'f' or not np.array_equal(g5.astype('float64'), traces.astype('float64') - imean.astype('float64')):
                     chk.violation('CenterOn:subtracts the given mean without wrap-around (integer mean)', dict(ctx, property='C18', mean=imean.tolist(), got=g5.tolist()), f'CenterOn(integer mean) on {dt}')
+                istd = np.array([2, 4, 1, 8], dtype=dt)
+                g6 = np.asarray(pp.StandardizeOn(mean=imean, std=istd)(traces))
+                if g6.dtype.kind != 'f' or not np.allclose(g6.astype('float64'), (traces.astype('float64') - imean.astype('float64')) / istd.astype('float64')):
+                    chk.violation('StandardizeOn:subtracts the given mean without wrap-around (integer mean)', dict(ctx, property='C18', mean=imean.tolist(), std=istd.tolist(), got=g6.tolist()), f'StandardizeOn(integer mean, integer std) on {dt}')
             g4 = np.asarray(pp.StandardizeOn(mean=mean, std=np.array([2.0, 4.0, 0.5, 1.0]))(traces))
             if not np.allclose(g4, (traces.astype('float64') - mean) / np.array([2.0, 4.0, 0.5, 1.0])):
                 chk.violation('StandardizeOn:uses the given mean and std', dict(ctx, property='C18'), f'StandardizeOn(mean, std) on {dt}')
